@@ -23,6 +23,7 @@ import (
 	"github.com/plgd-dev/go-coap/v3/message"
 	"github.com/plgd-dev/go-coap/v3/message/codes"
 	"github.com/plgd-dev/go-coap/v3/message/pool"
+	"github.com/plgd-dev/go-coap/v3/net/responsewriter"
 	"github.com/plgd-dev/go-coap/v3/options"
 	tcpclient "github.com/plgd-dev/go-coap/v3/tcp/client"
 	tcpcoder "github.com/plgd-dev/go-coap/v3/tcp/coder"
@@ -55,6 +56,35 @@ func (l *logger) take() string {
 	l.evs = nil
 	return s
 }
+
+// slowRequest: a non-confirmable GET /slow whose Uri-Query says how long (ns) its handler takes; nothing is sent back.
+func slowRequest(d int64, id int32, udp bool) *pool.Message {
+	m := pool.NewMessage(context.Background())
+	m.SetCode(codes.GET)
+	m.SetToken(message.Token{0x7a, byte(id)})
+	_ = m.SetPath("/slow")
+	m.AddQuery(strconv.FormatInt(d, 10))
+	if udp {
+		m.SetType(message.NonConfirmable)
+		m.SetMessageID(id)
+	}
+	return m
+}
+
+func slowFor(r *pool.Message) {
+	if p, _ := r.Path(); p != "/slow" {
+		return
+	}
+	qs, _ := r.Queries()
+	if len(qs) == 1 {
+		if d, err := strconv.ParseInt(qs[0], 10, 64); err == nil {
+			time.Sleep(time.Duration(d))
+		}
+	}
+}
+
+func slowHandlerUDP(_ *responsewriter.ResponseWriter[*udpclient.Conn], r *pool.Message) { slowFor(r) }
+func slowHandlerTCP(_ *responsewriter.ResponseWriter[*tcpclient.Conn], r *pool.Message) { slowFor(r) }
 
 func sleepTo(start time.Time, t int64) {
 	if d := time.Duration(t) - time.Since(start); d > 0 {
@@ -91,6 +121,7 @@ func runConnUDP(t *testing.T, c caseDef) []string {
 		// each peer.  A second, always silent connection from the same option is ticked along: monitors must not share state.
 		var factory func() udpclient.InactivityMonitor
 		cc, s := mem.NewUDPConn(mem.UDPOpts{Mutate: func(cfg *udpclient.Config) {
+			cfg.Handler = slowHandlerUDP
 			if c.maxRetries < 0 {
 				options.WithInactivityMonitor(c.period, onInactive).UDPClientApply(cfg)
 			} else {
@@ -177,6 +208,12 @@ func runConnUDP(t *testing.T, c caseDef) []string {
 						m.SetToken(message.Token{0x78, byte(mid)})
 					}
 					inject(m)
+				case "recvslow":
+					at, _ := strconv.ParseInt(f[1], 10, 64)
+					d, _ := strconv.ParseInt(f[2], 10, 64)
+					sleepTo(start, at)
+					mid++
+					inject(slowRequest(d, mid, true))
 				case "tickf":
 					at, _ := strconv.ParseInt(f[1], 10, 64)
 					sleepTo(start, at)
@@ -208,6 +245,7 @@ func runConnUDP(t *testing.T, c caseDef) []string {
 			out[i] = log.take()
 		}
 		_ = cc.Close()
+		time.Sleep(time.Minute) // a slow handler may still be running (virtual time)
 		synctest.Wait()
 	})
 	return out
@@ -231,6 +269,7 @@ func runConnTCP(t *testing.T, c caseDef) []string {
 		}
 		var factory func() tcpclient.InactivityMonitor
 		cc, peer, err := mem.NewTCPConn(mem.TCPOpts{Mutate: func(cfg *tcpclient.Config) {
+			cfg.Handler = slowHandlerTCP
 			if c.maxRetries < 0 {
 				options.WithInactivityMonitor(c.period, onInactive).TCPClientApply(cfg)
 			} else {
@@ -330,6 +369,12 @@ func runConnTCP(t *testing.T, c caseDef) []string {
 						m.SetToken(message.Token{0x01})
 					}
 					send(m)
+				case "recvslow":
+					at, _ := strconv.ParseInt(f[1], 10, 64)
+					d, _ := strconv.ParseInt(f[2], 10, 64)
+					sleepTo(start, at)
+					n++
+					send(slowRequest(d, int32(n), false))
 				case "trickle":
 					// the peer sends the next byte(s) of ONE big frame that it never completes: bytes, but no message
 					at, _ := strconv.ParseInt(f[1], 10, 64)
@@ -353,6 +398,7 @@ func runConnTCP(t *testing.T, c caseDef) []string {
 		}
 		_ = cc.Close()
 		peer.Close()
+		time.Sleep(time.Minute) // a slow handler may still be running (virtual time)
 		synctest.Wait()
 	})
 	return out
@@ -412,7 +458,7 @@ func TestC18(t *testing.T) {
 			flush(w)
 			fmt.Fprintln(w, "end")
 		case cur != nil && (f[0] == "recv" && len(f) == 2 || f[0] == "pong" && len(f) == 3 || f[0] == "tick" && len(f) == 2 ||
-			f[0] == "tickf" && len(f) == 2 || f[0] == "recvk" && len(f) == 3 || f[0] == "trickle" && len(f) == 2):
+			f[0] == "tickf" && len(f) == 2 || f[0] == "recvk" && len(f) == 3 || f[0] == "trickle" && len(f) == 2 || f[0] == "recvslow" && len(f) == 3):
 			cur.ops = append(cur.ops, f)
 		default:
 			flush(w)
